@@ -72,6 +72,12 @@ def check(case, ctx):
         if ans != fans:
             detail = {"cmd_index": idx, "incremental": ans, "fresh": fans, "script": gen.render(script),
                       "fresh_script": gen.render(fs)}
+            try:
+                # which side is wrong (only used to recognise the known wrong-sat families shared with C02)
+                from .. import ref
+                detail["reference"] = ref.decide(osmt.ref_decls(script, idx), [t for t, _ in active], 8000)[0]
+            except Exception as e:  # the differential verdict does not depend on the reference
+                detail["reference"] = "error: %s" % e
             return Result("violation", nt_key, classes, detail, evals=evals)
     return Result(status, nt_key, classes, evals=evals)
 
@@ -92,4 +98,15 @@ def _sig_la_deep(case, res):
     return d.get("incremental") == "sat" and d.get("fresh") == "unsat" and sigs.lookahead_deep(case, d.get("cmd_index"))
 
 
-SIGNATURES = {"non-incremental-second-check-sat": _sig_nonincr, "lookahead-three-assertion-levels": _sig_la_deep}
+def _sig_family(name):
+    def f(case, res):
+        from . import sigs
+        d = res.detail or {}
+        # one of the two runs answered sat on a set the reference solvers refute, in a configuration of a known family
+        return d.get("reference") == "unsat" and sigs.WRONG_SAT_FAMILIES[name](case, d.get("cmd_index"))
+    return f
+
+
+SIGNATURES = {"non-incremental-second-check-sat": _sig_nonincr, "lookahead-three-assertion-levels": _sig_la_deep,
+              "ghost-vars-theory-combination-wrong-sat": _sig_family("ghost-vars-theory-combination-wrong-sat"),
+              "uf-bool-argument-theory-combination-wrong-sat": _sig_family("uf-bool-argument-theory-combination-wrong-sat")}
